@@ -49,12 +49,16 @@ def make_run_execute(with_prlimit):
             i = ev.index(('timeout', 0))
             after = ev[i + 1:]
             p.oblige(f'{N}/killed-after-timeout', ('kill', 0) in after)
+            # after the time limit has expired nothing may wait for the
+            # child without a limit -- not even after kill(): a wrapper
+            # script's grandchildren can keep the pipes open
             p.oblige(f'{N}/no-blocking-call-after-timeout',
                      not any(e[0] == 'blocking-wait' for e in after) and
-                     not any(e[0] == 'communicate' and
-                             (len(e) < 3 or e[2] is None) and
-                             ('kill', 0) not in after[:after.index(e)]
-                             for e in after))
+                     not any(e[0] in ('communicate', 'wait') and
+                             (len(e) < 3 or e[2] is None) for e in after),
+                     info={'events': repr(after), 'signature':
+                           'unbounded wait for the child after the time '
+                           'limit expired'})
             r = out.value
             p.oblige(f'{N}/timeout-record-has-no-output',
                      r.out is None and r.err is None)
